@@ -824,9 +824,13 @@ def _gen_list_variant(cx, pkg, main, svc, noun, res, enums, msgs):
         fields.append({"name": "page_token", "type": "string"})
     elif c < 0.9:
         fields.append({"name": "page_token", "type": rng.choice(["bytes", "int32"])})
+    elif c < 0.94:
+        fields.append({"name": "page_token", "type": "string", "repeated": True})     # a LIST of strings is not "a string"
     c = rng.random()
     if c < 0.5:
         fields.append({"name": "page_size", "type": "int32"})
+        if rng.random() < 0.06:
+            fields[-1]["repeated"] = True                                              # nor is a list of integers an integer
     elif c < 0.62:
         fields.append({"name": "page_size", "type": rng.choice(["int64", "uint32", "sint32", "fixed32"])})
     elif c < 0.70:
@@ -861,6 +865,8 @@ def _gen_list_variant(cx, pkg, main, svc, noun, res, enums, msgs):
         rf.append({"name": "next_page_token", "type": "string"})
     elif c < 0.93:
         rf.append({"name": "next_page_token", "type": rng.choice(["bytes", "int64"])})
+    elif c < 0.96:
+        rf.append({"name": "next_page_token", "type": "string", "repeated": True})
     reps = []
     c = rng.random()
     if c < 0.55:
